@@ -44,10 +44,9 @@ def setup_call_ranges(P):
         return
     IV.CALL_RANGES.clear()
     try:
-        fld = [f for f in P.adt(MG + "iter::MoveGen")["variants"][0]["fields"] if f["name"] == "moves"][0]
-        m = re.search(r"ArrayVec<.*, (\d+)(usize)?>", fld["ty"])
-        if m:
-            r = IV.ret_range(P, MG + "iter::MoveGen::len", trips={"core::slice::Iter<": int(m.group(1)), "core::slice::iter::Iter<": int(m.group(1))})
+        cap_ = movelist_capacity(P)
+        if cap_:
+            r = IV.ret_range(P, MG + "iter::MoveGen::len", trips={"core::slice::Iter<": cap_, "core::slice::iter::Iter<": cap_})
             if r:
                 IV.CALL_RANGES[MG + "iter::MoveGen::len"] = r
     except (AnchorError, IndexError, KeyError):
@@ -268,13 +267,26 @@ def inv_king(ctx):
     return [f"{x.rule}: {x.what[:160]}" for x in v]
 
 
+def movelist_capacity(P):
+    """CAP of MoveGen.moves: ArrayVec<LegalMovesAt, CAP>, with CAP a literal or a named constant (resolved from the evaluated constants)."""
+    ml = P.adt(MG + "iter::MoveGen")["variants"][0]["fields"]
+    fld_ = [f for f in ml if f["name"] == "moves"][0]
+    m = re.search(r"ArrayVec<.*, (\d+)(usize)?>", fld_["ty"])
+    if m:
+        return int(m.group(1))
+    args = (fld_.get("tj") or {}).get("args") or []
+    if len(args) == 2 and args[1].get("k") == "const":
+        name = args[1].get("s", "")
+        cands = [v for k, v in P.values.items() if (k == name or k.endswith("::" + name)) and v.get("crate") == "chess_movegen" and isinstance(v.get("val"), dict) and "int" in v["val"]]
+        if len(cands) == 1:
+            return int(cands[0]["val"]["int"])
+    return None
+
+
 def inv_cap(ctx):
     P = ctx.P
     out = []
-    ml = P.adt(MG + "iter::MoveGen")["variants"][0]["fields"]
-    ty = [f for f in ml if f["name"] == "moves"][0]["ty"]
-    m = re.search(r"ArrayVec<.*, (\d+)>", ty)
-    cap = int(m.group(1)) if m else None
+    cap = movelist_capacity(P)
     # accepted maximum per colour from validate (C06.R3 extracts it); both colours must be bounded
     v = sub_rules(ctx, "C06", {"C06.R3"})
     out += [f"C06.R3: {x.what[:140]}" for x in v if "piece count" in x.key]
